@@ -45,7 +45,25 @@ variable [DecidableEq ℂ]
 = the trace of the matrix whose `i`-th column is the model's `LanczosUnary(A, clog) @ e_i` (`KrylovCompose.lanczosUnaryMat`:
 `Lanczos.lanczosExact` run on `e_i`, `eigh` of the returned `T`, `Q P (log θ ⊙ Pᴴ e₁)`).  It answers when the represented
 matrix is Hermitian (the semantic content of `assert A.isa(SelfAdjoint)`), non-singular, and every probe's run is
-exhausted. -/
+exhausted.
+
+WHAT THIS KERNEL MODELS, precisely — it is narrower than the real call:
+* ONE PROBE AT A TIME.  The real `Exact()` trace multiplies `LanczosUnary` by blocks of up to 100 identity columns, and
+  `lanczos_fact` runs the block as ONE batched loop with a shared stopping test.  Here each `e_i` is its own run
+  (`#[single i 1]`, batch of one).  The batched loop is not modelled; where it differs from the one-by-one runs is the
+  recorded clause `lanczos-batch-breakdown` (C14 `batch-member-breakdown`).
+* IDENTITY PROBES = THE EXACT TRACE.  Only `trace(…, Exact())` is modelled (the sum of the diagonal entries
+  `e_iᴴ log(A) e_i`); the stochastic estimators are not.
+* THE ARGUMENTS `la` / `ta` OF THE KERNEL SLOT ARE IGNORED (`lanczosKernels` passes `fun _ _ A => …`): the options come
+  from the parameters `max_iters`, `tol` of this definition, i.e. one fixed `Lanczos(max_iters, tol)` object whatever
+  log-algorithm / trace-algorithm objects the rule hands down.
+* RUN TO THE GRADE.  The kernel ERRORS unless every probe's residual is EXACTLY `0` at the step the run stops
+  (`resid … 0 = 0`): the Krylov space of every `e_i` is exhausted, i.e. the run reaches the grade of `e_i`
+  (`max_iters ≥` grade, and the relative test `tol` did not stop it earlier on a non-zero residual; with `tol = 0` the
+  run stops exactly at the grade).  A truncated run (the usual floating-point situation, residual small but non-zero)
+  gets `.error "lanczos"` here: NOTHING is claimed about it.  Convergence of truncated Lanczos quadrature is not part of C07.
+So the theorems built on it (`lanczosKernels_parts`, `C07_lanczos_kernel_parts`, `C07_lanczos_kernel_answers`) say: in exact arithmetic, probe by probe, run to the
+grade, the Lanczos path returns `tr log A`.  They say nothing about batching, truncation or rounding. -/
 noncomputable def lanczosTrlog (eigh : Eigh ℂ) (max_iters : ℕ) (tol : ℝ) (A : Op ℂ) : Except String ℂ :=
   open Classical in
   if A.rows = A.cols ∧ (MatF.toMatrix A.rows A.rows A.den.f).IsHermitian ∧
